@@ -25,6 +25,7 @@ NONTRIVIAL = {
     "c10": lambda i: isinstance(i, dict) and len(i.get("arts") or []) > 1,
     "c12": lambda i: isinstance(i, dict) and len(i.get("arts") or []) > 1,
     "c13": lambda i: isinstance(i, dict) and len(i.get("ops") or []) > 1 and len(i.get("mods") or []) > 0,
+    "c14": lambda i: isinstance(i, dict) and len(i.get("arts") or []) > 1,
     "c15": lambda i: isinstance(i, dict) and len(i.get("name") or []) > 1,
 }
 
@@ -91,5 +92,12 @@ PROPS = {
         "rule": "every history over {AST(), Render()} up to length 4 (6 thorough) x 60 (120) random configurations (1 or 4 proto files, target subsets, 5 parameter strings, 3 mutator line-ups, 0-4 recording modules returning 0-3 legal artifacts and leaving context pushes unbalanced, optional post-processor / supported-features / bidirectional mode) + seeded random histories up to 8; effects observed through a counting reader, a decoding writer and recording modules logging through a recording debugger; non-trivial = at least 2 ops and 1 module",
         "level_text": "Theorem C13_trace: for every configuration and every finite history of AST()/Render() calls the effect trace of the once-guarded workflow equals the declarative trace (input read once before anything else; on the first Render all InitContext in order then all Execute in order then one Write of persist(concat artifacts); nothing afterwards), by an invariant over the three Once flags; corollaries for 'rendering again does nothing'.",
         "level_note": "Trusted: sync.Once modelled sequentially (the library is single-threaded); proto.Marshal/Unmarshal (response compared after decoding); the AST handed to modules is observed only through Targets()/Packages() keys and object identity (its content is C01's subject); persist is the C10 model.",
+    },
+    "C14": {
+        "engines": [("c14", "main")],
+        "lean": ["PgsVerif.Props.C14"],
+        "rule": "5 otherwise valid runs x {fault-free control; unreadable / unparsable input / no target; output write error / short write; each of 8 bad artifacts (absolute name, climbing name, append to a file never generated, empty injection name, unknown artifact, failing generator template, failing custom template, failing template append) at every index; a failing post-processor at each chain position after each artifact; each of 6 file-system operations (MkdirAll, Stat, OpenFile, Write, Close, short Write) of each custom file} + seeded random combinations (soft error before the fault, several faults at once); every case is a REAL CHILD PROCESS (`pgsharness plugin`, default stdin/stdout, the library's own os.Exit): exit status, stdout bytes and the cause on stderr are observed; non-trivial = at least 2 artifacts",
+        "level_text": "Theorems over all fault plans (C14_fail_stop): the modelled pipeline ends with exit status 1 and a named cause exactly when a planned fault takes effect, and then no response byte was written unless the fault is the short write of the output; a fault-free plan exits 0 with one complete response. PARTIAL by nature: that os.Exit really terminates the process and that nothing else writes to stdout is runtime behaviour - established only by the correspondence run on real child processes.",
+        "level_note": "Trusted: the model of the pipeline order (input, artifacts in order, file-system operations of writeFile in order, output write); afero.WriteFile's use of OpenFile/Write/Close; the harness' fault-injecting reader/writer/file system; classification of the stderr text into cause tags.",
     },
 }
